@@ -109,6 +109,8 @@ def pieces (k : Kind) : Construct → List Piece
     match k with
     | .postgresql => [L "COMMENT ON COLUMN " "COMMENT ON COLUMN", tblColP g col, L " IS " "IS",
                       match comment with | some c => .opq c | none => L "NULL" "NULL"]
+    | .oracle => [L "COMMENT ON COLUMN " "COMMENT ON COLUMN", tblColP g col, L " IS " "IS",
+                  match comment with | some c => .opq c | none => L "''" "''"]
     | _ => []
   | .identity g col tail =>
     match k with
